@@ -61,7 +61,7 @@ Topo(t) ==
       [] t = "sq4"     -> << <<0,0,0>>, <<1,0,0>>, <<0,1,0>>, <<1,1,0>> >>
       [] t = "zig4"    -> << <<0,0,0>>, <<1,0,0>>, <<1,1,0>>, <<2,1,0>> >>
 
-VId(p) == p[1] + 4 * p[2] + 16 * p[3]
+VId(p) == p[1] + 5 * p[2] + 25 * p[3]      \* (coordinates 0..4: row4 reaches x = 4)
 CellVerts(cell, symIdx) ==
     [k \in 1..8 |-> LET c == XYZTab[SymTab[symIdx][k] + 1]
                     IN VId(<<cell[1] + c[1], cell[2] + c[2], cell[3] + c[3]>>)]
@@ -147,16 +147,27 @@ ChopGrade(n) ==
     ELSE /\ wg' = [wg EXCEPT ![n] = [i \in 1..4 |-> wg[n][i] \o chops[n]]]
          /\ axg' = [axg EXCEPT ![n] = axg[n] \o chops[n]]
 
+\* Axis.grade on a propagated direction since the repair of the second write: what an earlier grade() copied from the
+\* neighbours - chops and wire gradings, calculated with the lengths of that time - is forgotten first; then copy_neighbours
+\* (nothing to propagate: the node holds no chops until the propagation phase copies them again)
+PickFresh(c) == IF c.i = 0 THEN <<>> ELSE IF c.al THEN wg[c.n][c.i] ELSE InvSeq(wg[c.n][c.i])
+ResetGrade(n) ==
+    /\ chops' = [chops EXCEPT ![n] = <<>>]
+    /\ \E c1 \in Opts(n, 1), c2 \in Opts(n, 2), c3 \in Opts(n, 3), c4 \in Opts(n, 4) :
+          wg' = [wg EXCEPT ![n] = <<PickFresh(c1), PickFresh(c2), PickFresh(c3), PickFresh(c4)>>]
+
 NextPc(p) == IF p[2] < 2 THEN <<p[1], p[2] + 1>> ELSE <<p[1] + 1, 0>>
 
 \* BlockList.grade_blocks: blocks in list order, axes 0,1,2
 GradeStep ==
     /\ phase = "grade"
-    /\ IF IsChopMgr(pc) THEN ChopGrade(pc) ELSE PropGrade(pc, chops[pc]) /\ UNCHANGED axg
+    /\ IF IsChopMgr(pc) THEN ChopGrade(pc) /\ UNCHANGED chops
+       ELSE /\ IF Variant = "fixed" THEN ResetGrade(pc) ELSE PropGrade(pc, chops[pc]) /\ UNCHANGED chops
+            /\ UNCHANGED axg
     /\ IF NextPc(pc)[1] > NB
        THEN /\ phase' = "prop" /\ pc' = <<0, 0>> /\ todo' = Blocks
        ELSE /\ phase' = phase /\ pc' = NextPc(pc) /\ todo' = todo
-    /\ UNCHANGED <<cfgvars, chops, undef, updated, passes, outcome, round>>
+    /\ UNCHANGED <<cfgvars, undef, updated, passes, outcome, round>>
 
 \* one iteration of `for i in undefined_blocks`: pick a block (set iteration order is free)
 StartPass == /\ todo' = undef /\ updated' = FALSE
@@ -210,10 +221,11 @@ Check ==
                   THEN "Written" ELSE "Inconsistent"
     /\ UNCHANGED <<cfgvars, chops, axg, wg, pc, todo, undef, updated, passes, round>>
 
-\* the user writes (grades) the same assembled mesh once more: everything the first grade() left behind is still
-\* there - propagated chops, wire and axis gradings - and grade_blocks starts over
+\* the user writes (grades) the same assembled mesh once more - after a written file, or after an error that was caught
+\* (retry, another path): everything the first grade() left behind is still there when grade_blocks starts over - it is
+\* GradeStep that clears it, direction by direction; OutcomeOK holds for the second attempt as for the first
 Regrade ==
-    /\ phase = "done" /\ round < Rounds /\ outcome = "Written"
+    /\ phase = "done" /\ round < Rounds
     /\ round' = round + 1
     /\ phase' = "grade" /\ pc' = <<1, 0>> /\ todo' = {} /\ undef' = Blocks
     /\ updated' = FALSE /\ passes' = 0 /\ outcome' = "none"
@@ -278,7 +290,7 @@ TypeOK == /\ phase \in {"grade", "prop", "check", "done"}
 
 \* C02: progress bound (termination of the fix-point loop)
 PassBoundOK == passes <= PassBound * NB + 2
-Terminates == <>(phase = "done" /\ (round = Rounds \/ outcome # "Written"))
+Terminates == <>(phase = "done" /\ round = Rounds)
 
 \* C01/C02: the outcome is the declarative one
 OutcomeOK ==
